@@ -23,7 +23,8 @@ def seeds():
         else:
             how = 'missed (exit %s)' % c.get('check_quick_exit_with_change')
         if m.get('detected_after'):
-            how += '; ' + m['detected_after']
+            da = m['detected_after']
+            how += '; ' + (da if isinstance(da, str) else json.dumps(da, ensure_ascii=False))
         def short(s, n):
             s = ' '.join(str(s or '').split())
             return (s[:n] + '…') if len(s) > n else s
